@@ -432,6 +432,38 @@ func gen(r *sim.Rng, tier string) *sim.Case {
 	if r.Pct(50) {
 		c.Sched.TickPct = []int{2, 10, 30}[r.N(3)]
 	}
+	if r.Pct(3) {
+		// a slow observer: one thread makes a single read-only call and is descheduled between
+		// its loads, each time for as long as several operations of a busy thread take; small
+		// ring, counters often just below 2^32
+		small := []int{1, 2, 2, 3, 4}[r.N(5)]
+		ce := 2
+		for ce < small {
+			ce *= 2
+		}
+		c.Params["cap_req"], c.Params["elem"], c.Params["twin"], c.Params["scenario"] = small, 0, 0, 0
+		c.Params["fill"] = r.N(ce + 1)
+		c.Params["pairs"] = 0
+		if r.Pct(70) {
+			c.Params["pairs"] = (1 << 32) - 1 - r.N(2*ce+6)
+		}
+		obs := sim.Op{Op: []string{"Len", "Len", "IsFull", "IsEmpty"}[r.N(4)]}
+		var busy []sim.Op
+		for i := 0; i < r.Range(5, 10); i++ {
+			if r.Bool() {
+				busy = append(busy, sim.Op{Op: "Push", V: 2<<8 | (i + 1)})
+			} else {
+				busy = append(busy, sim.Op{Op: "Pop"})
+			}
+		}
+		c.Programs = [][]sim.Op{{obs}, busy}
+		c.Sched = enga.GenSched(r, 2, len(busy)+1, -1, false)
+		c.Sched.Stalls = []sim.Stall{
+			{T: 0, AfterS: 3, For: r.Range(4, 40)},
+			{T: 0, AfterS: 4, For: r.Range(4, 60)},
+		}
+		c.Sched.SpinBurn, c.Sched.FreezeAt = 0, -1
+	}
 	c.EnvSeed = r.U64() >> 12
 	return c
 }
